@@ -587,6 +587,7 @@ pub fn gen_forest(rng: &mut Rng, cat: &mut Catalogue, cfg: &GenCfg) -> Forest {
         None
     };
     let mut hostile_used = false;
+    let mut class_cols: HashMap<String, Vec<(String, Option<VariantType>)>> = HashMap::new();
     for i in 1..=n {
         let class = match &case_class {
             Some(c) => c.clone(),
@@ -608,6 +609,16 @@ pub fn gen_forest(rng: &mut Rng, cat: &mut Catalogue, cfg: &GenCfg) -> Forest {
             _ => rng.range(2, 7),
         };
         for _ in 0..k {
+            // columns with several rows: reuse a (name, type) an earlier instance of this class already carries, with a fresh
+            // value, so that every wire type's array coding (interleaving, delta coding, sub-arrays) is met with >= 2 rows
+            if let Some(prev) = class_cols.get(&class) {
+                if !prev.is_empty() && rng.chance(40) {
+                    let (pn, pt) = rng.pick(prev).clone();
+                    let v = gen_prop_value(rng, pt, n);
+                    props.push((pn, v));
+                    continue;
+                }
+            }
             if known && !rng.chance(15) {
                 let specs = cat.props_of(&class).clone();
                 let hot: Vec<&PropSpec> = specs.iter().filter(|p| p.alias || p.migrates || p.serializes_as).collect();
@@ -627,6 +638,7 @@ pub fn gen_forest(rng: &mut Rng, cat: &mut Catalogue, cfg: &GenCfg) -> Forest {
                     hostile_used = true;
                 }
                 let v = gen_prop_value(rng, ty, n);
+                class_cols.entry(class.clone()).or_default().push((spec.name.clone(), ty));
                 props.push((spec.name.clone(), v));
             } else {
                 // a property the database does not know: its type is a function of its name
@@ -641,6 +653,7 @@ pub fn gen_forest(rng: &mut Rng, cat: &mut Catalogue, cfg: &GenCfg) -> Forest {
                 let name = unknown_prop_name(t, rng.below(2));
                 let ty = if t == VariantType::Enum { None } else { Some(t) };
                 let v = gen_prop_value(rng, ty, n);
+                class_cols.entry(class.clone()).or_default().push((name.clone(), ty));
                 props.push((name, v));
             }
         }
